@@ -4,6 +4,7 @@
 //! The OCaml driver (extracted Coq model) recomputes the result from `op args` and compares.
 mod sbdd;
 mod scli;
+mod shist;
 mod sset;
 mod stext;
 mod sx;
@@ -73,6 +74,7 @@ fn main() {
         "text" => stext::main(&mut out, &o),
         "cli" => scli::main(&mut out, &o),
         "set" => sset::main(&mut out, &o),
+        "hist" => shist::main(&mut out, &o),
         "replay" => {
             // re-run case lines given on stdin (op \t args [\t old-real]) against the current implementation
             let stdin = std::io::stdin();
@@ -110,6 +112,10 @@ fn replay_one(op: &str, args: &str, o: &Opts) -> String {
         },
         "tok" | "parse" | "eval" => match sx::parse(args) {
             Ok(x) => stext::replay(op, &x),
+            Err(e) => format!("(harness-error {e})"),
+        },
+        "hist" | "heap" => match sx::parse(args) {
+            Ok(x) => shist::replay(op, &x),
             Err(e) => format!("(harness-error {e})"),
         },
         "set" => match sx::parse(args) {
